@@ -151,7 +151,7 @@ fn check(prop: &str, tier: &str) -> i32 {
         Ok(v) => v,
         Err(e) => die(&e),
     };
-    let env = Env { scenarios: scen::load_all().unwrap_or_else(|e| die(&e)) };
+    let env = Env::load().unwrap_or_else(|e| die(&e));
     let root = verif_root();
     let known: KnownFindings = match std::fs::read_to_string(root.join("known_findings.json")) {
         Ok(s) => serde_json::from_str(&s).unwrap_or_else(|e| die(&format!("known_findings.json: {e}"))),
@@ -523,7 +523,7 @@ fn main() {
             if args.len() < 8 {
                 die("usage: worker <engine> <base> <p> <workers> <total> <out-prefix>");
             }
-            let env = Env { scenarios: scen::load_all().unwrap_or_else(|e| die(&e)) };
+            let env = Env::load().unwrap_or_else(|e| die(&e));
             let n = |i: usize| args[i].parse::<u64>().unwrap_or_else(|_| die("bad number"));
             let extra: Vec<u64> = args.get(8).and_then(|f| std::fs::read_to_string(f).ok()).map(|t| t.lines().filter_map(|l| l.trim().parse().ok()).collect()).unwrap_or_default();
             let r = dispatch!(args[2].as_str(), E => worker::<E>(&env, n(3), n(4), n(5), n(6), &PathBuf::from(&args[7]), &extra));
@@ -532,7 +532,7 @@ fn main() {
             }
         }
         "fps" => {
-            let env = Env { scenarios: scen::load_all().unwrap_or_else(|e| die(&e)) };
+            let env = Env::load().unwrap_or_else(|e| die(&e));
             let n = |i: usize| args[i].parse::<u64>().unwrap_or_else(|_| die("bad number"));
             let mut idx: Vec<u64> = (n(5)..n(5) + n(6)).collect();
             if args.get(7).map(|s| s.as_str()) == Some("rev") {
@@ -555,7 +555,7 @@ fn main() {
             }
         }
         "run" => {
-            let env = Env { scenarios: scen::load_all().unwrap_or_else(|e| die(&e)) };
+            let env = Env::load().unwrap_or_else(|e| die(&e));
             let n = |i: usize| args[i].parse::<u64>().unwrap_or_else(|_| die("bad number"));
             dispatch!(args[2].as_str(), E => {
                 warm_up::<E>(&env, derive(n(3), "global", 0));
@@ -574,7 +574,7 @@ fn main() {
             // C13 corpus and a seeded batch
             let out_path = args.get(2).unwrap_or_else(|| die("usage: export-subjects <out.json> [runs]"));
             let n_runs: u64 = args.get(3).and_then(|s| s.parse().ok()).unwrap_or(6000);
-            let env = Env { scenarios: scen::load_all().unwrap_or_else(|e| die(&e)) };
+            let env = Env::load().unwrap_or_else(|e| die(&e));
             let base = env_u64("VERIF_SEED").unwrap_or(DEFAULT_SEED);
             warm_up::<c13::C13>(&env, derive(base, "global", 0));
             let mut specs: Vec<c13::Spec> = load_corpus("C13").into_iter().filter_map(|v| serde_json::from_value(v).ok()).collect();
@@ -654,7 +654,7 @@ fn main() {
                 die(&e);
             }
             let rf: ReplayFile = serde_json::from_str(&std::fs::read_to_string(path).unwrap_or_else(|e| die(&format!("{path}: {e}")))).unwrap_or_else(|e| die(&format!("{path}: {e}")));
-            let env = Env { scenarios: scen::load_all().unwrap_or_else(|e| die(&e)) };
+            let env = Env::load().unwrap_or_else(|e| die(&e));
             println!("replaying {} (property {}, engine {}, expected class `{}`)", path, rf.property, rf.engine, rf.expect_class);
             let r = dispatch!(rf.engine.as_str(), E => replay::<E>(&env, &rf));
             match r {
